@@ -538,4 +538,58 @@ theorem clearLoop_noFaults (ds : List String) :
     simp only [noFaults, clearEntries_noFaults]
     exact ih _ _
 
+/-! ### liveness: a call during which nothing is injected succeeds -/
+
+theorem removeLoopE_true (sch : Sched) (ps : List String) :
+    ∀ (k : Nat) (fs : FS), removeLoopE true sch k fs ps = removeLoop sch k fs ps := by
+  induction ps with
+  | nil => intro k fs; rfl
+  | cons p ps ih =>
+    intro k fs
+    unfold removeLoopE removeLoop
+    split <;> simp [ih]
+
+theorem replaceFilesE_true (sch : Sched) (s : St) (F : List File) :
+    replaceFilesE true sch s F = replaceFiles sch s F := by
+  unfold replaceFilesE replaceFiles replaceFilesV
+  simp only [removeLoopE_true]
+
+theorem removeLoop_noFaults (ps : List String) :
+    ∀ (k : Nat) (fs : FS), (removeLoop noFaults k fs ps).out = .ok := by
+  induction ps with
+  | nil => intro k fs; rfl
+  | cons p ps ih =>
+    intro k fs
+    unfold removeLoop
+    simp only [noFaults]
+    exact ih _ _
+
+theorem writeFile_noFaults (k : Nat) (fs : FS) (f : File) : (writeFile noFaults k fs f).out = .ok := by
+  simp [writeFile, noFaults]
+
+theorem writeLoop_noFaults (b : Bool) (F : List File) :
+    ∀ (k : Nat) (fs : FS) (last : List String), (writeLoop b noFaults k fs last F).out = .ok := by
+  induction F with
+  | nil => intro k fs last; rfl
+  | cons f r ih =>
+    intro k fs last
+    unfold writeLoop
+    simp only [writeFile_noFaults]
+    exact ih _ _ _
+
+theorem replaceFiles_noFaults (s : St) (F : List File) : (replaceFiles noFaults s F).out = .ok := by
+  unfold replaceFiles replaceFilesV
+  simp only [removeLoop_noFaults]
+  exact writeLoop_noFaults true F _ _ _
+
+/-- the variant that does not recognise ENOENT: a tracked path that is not on disk stops the removal loop at
+once, without any injected fault, and leaves the state as it was -/
+theorem replaceFilesE_false_stuck (s : St) (p : String) (ps : List String) (F : List File)
+    (hl : s.last = p :: ps) (hp : get s.fs p = none) :
+    (replaceFilesE false noFaults s F).out = .failed ∧ (replaceFilesE false noFaults s F).st = s := by
+  unfold replaceFilesE
+  rw [hl]
+  simp only [removeLoopE, noFaults, hp, and_self, if_true]
+  cases s; simp_all
+
 end NGF.FileMgr
